@@ -4,7 +4,7 @@ from tools import vlib
 from tools.vlib import hx, unhx
 
 MODULE = "PropC15"
-THEOREMS = ["C15_code_conforms", "C15_parse_render", "C15_replace_pieces", "C15_test_vectors", "C15_missing_fails", "C15_missing_cases", "C15_setout_missing_fails", "C15_default_path_deterministic", "C15_missing_fails_examples", "C15_command", "C15_modifiers_documented"]
+THEOREMS = ["C15_code_conforms", "C15_parse_render", "C15_replace_pieces", "C15_test_vectors", "C15_missing_fails", "C15_missing_cases", "C15_setout_missing_fails", "C15_default_path_deterministic", "C15_missing_fails_examples", "C15_command", "C15_modifiers_documented", "C15_cone_conforms"]
 
 PATHS = ["data/foofile.txt", "barfile.txt", "a/b/c.txt", "../up/x.txt", "/abs/dir/y.txt", "x", "dat.a.txt", "a/s/a/b/t", "d.txt/e.txt", "a.txt.txt"]
 VALS = ["v1", "a.b", "x/y", "10", "dat", "A-b_c", "0.5", "C", "chrX"]
